@@ -157,11 +157,17 @@ func (g *GoBackNConn) Send(data []byte) error {
 	ticker := time.NewTimer(g.timeoutManager.GetSendTimeout())
 	defer ticker.Stop()
 
+	// The send timeout only applies until the first chunk of the message has
+	// been handed over: a partially queued message cannot be taken back, so
+	// giving up in the middle would leave the peer with a truncated message
+	// that gets merged with whatever is sent next.
+	timeout := ticker.C
+
 	sendPacket := func(packet *PacketData) error {
 		select {
 		case g.sendDataChan <- packet:
 			return nil
-		case <-ticker.C:
+		case <-timeout:
 			return errSendTimeout
 		case <-g.quit:
 			return fmt.Errorf("cannot send, gbn exited")
@@ -198,6 +204,9 @@ func (g *GoBackNConn) Send(data []byte) error {
 		if err := sendPacket(packet); err != nil {
 			return err
 		}
+
+		// The message has been started, it now has to be completed.
+		timeout = nil
 	}
 
 	return nil
